@@ -27,6 +27,8 @@ pub enum Ty {
     Cursor,                  // ReaderCursor<R>: external, reached through `step`
     ExtW,                    // W: Write kept abstract (`W=@extw`): reached through `wwrite` / `wflush`
     Any,                     // the payload type of a bare `None`: unifies with everything
+    /// `F: FnMut(&mut T) -> U` seen as a stateless function `T → M (U × T)` (the argument handed back)
+    FnMut1(Box<Ty>, Box<Ty>),
 }
 
 #[derive(Default)]
@@ -64,6 +66,8 @@ pub struct FnSig {
     pub view: Option<String>,
     /// takes the external `compress` as an argument
     pub uses_compress: bool,
+    /// a recursive function being translated (`rec=1`): calls from its own body go to `<lean>.go … fuel`
+    pub rec_self: bool,
 }
 
 /// the type a target line instantiates a type parameter with: `B=Block`, or `W=@extw` for an abstract writer
@@ -110,6 +114,7 @@ impl World {
             Ty::Named(n) => n.clone(),
             Ty::Cursor | Ty::ExtW => "γ".into(),
             Ty::Any => "_".into(),
+            Ty::FnMut1(a, r) => format!("({} → M ({} × {}))", self.lean_ty(a)?, self.lean_ty(r)?, self.lean_ty(a)?),
             Ty::Tuple(ts) => {
                 let v: R<Vec<String>> = ts.iter().map(|t| self.lean_ty(t)).collect();
                 format!("({})", v?.join(" × "))
@@ -391,6 +396,8 @@ fn const_eval(e: &Expr) -> Option<u128> {
 struct Var {
     ty: Ty,
     lean: String,
+    /// bound while a place alias of the same name was in scope: the variable shadows the alias
+    masks_alias: bool,
 }
 
 pub struct Ctx<'w> {
@@ -505,7 +512,8 @@ impl<'w> Ctx<'w> {
     }
     fn bind(&mut self, n: &str, ty: Ty) -> String {
         let lean = lean_ident(n);
-        self.vars.last_mut().unwrap().insert(n.to_string(), Var { ty, lean: lean.clone() });
+        let masks_alias = self.elems.contains_key(n) || self.heads.contains_key(n);
+        self.vars.last_mut().unwrap().insert(n.to_string(), Var { ty, lean: lean.clone(), masks_alias });
         lean
     }
     fn fresh(&mut self, base: &str) -> String {
